@@ -2063,6 +2063,26 @@ func (b *Bounds) valuePaths(v ssa.Value, at *ssa.BasicBlock, base pathCtx, mode,
 				base.facts = append(append([]Fact{}, base.facts...), b.condFacts(v, mode == 1, "returned condition")...)
 			}
 		}
+		// the value is itself the result of a library call: what that callee guarantees when it
+		// returns such a value holds here too (e.g. `return validateX(n)` passes on "n <= MAX")
+		if cr, isCR := termKey(v).(callRes); isCR && !sat {
+			if call, isCall := cr.C.(*ssa.Call); isCall {
+				if g := call.Call.StaticCallee(); g != nil && InLib(g) && len(g.Blocks) > 0 {
+					want := map[int]Cond{0: CondErrNil, 1: CondTrue, 2: CondFalse}[mode]
+					if sum := b.Summary(g); sum != nil {
+						extra := append([]Fact{}, base.facts...)
+						for _, sf := range sum.Facts {
+							if sf.Cond == want && sf.Idx == cr.I {
+								if l, ok := b.instantiate(sf.L, call); ok {
+									extra = append(extra, Fact{L: l, Why: "post-condition of " + g.Name()})
+								}
+							}
+						}
+						base.facts = extra
+					}
+				}
+			}
+		}
 		return []pathCtx{base}
 	}
 	var out []pathCtx
